@@ -128,3 +128,21 @@ Theorem C14_crn_builds_parallel_equals_serial :
   builds_from c parallel workers t st0 calls = builds_from c false 0%nat t st0 calls.
 Proof. exact main_crn_builds_parallel_equals_serial. Qed.
 Print Assumptions C14_crn_builds_parallel_equals_serial.
+
+(** Parallel versus serial validation: for every per-row check, every table and every worker count, validate_smiles' per-row
+    results are, row by row and in order, the single-row results, and results / success count / row count equal those of the
+    serial run (joblib.Parallel modelled as an order-preserving chunked map — its contract; worker counts compared at run time). *)
+Theorem C14_validate_workers :
+  forall (A : Type) (n_jobs : nat) (check : A -> bool) (rows : list A),
+  validate_column n_jobs check rows = validate_column 1%nat check rows /\
+  fst (validate_column n_jobs check rows) = map check rows.
+Proof. exact main_validate_workers. Qed.
+Print Assumptions C14_validate_workers.
+
+(** Parallel versus serial balance checking: for every worker count the two lists returned are exactly the balanced and the
+    unbalanced rows, each in input order — failing rows in the middle of the list stay where they are. *)
+Theorem C14_balance_workers :
+  forall (A : Type) (n_jobs : nat) (check : A -> bool) (rows : list A),
+  balance_split n_jobs check rows = (filter check rows, filter (fun r => negb (check r)) rows).
+Proof. exact main_balance_workers. Qed.
+Print Assumptions C14_balance_workers.
